@@ -56,12 +56,13 @@ BadCustomPool ==
                             Sz("Custom", 1000000, 1000000)} ELSE {})
 
 Mar(t, r, b, l) == [mt |-> t, mr |-> r, mb |-> b, ml |-> l]
-MarPool == {Mar(25400, 25400, 25400, 25400), Mar(10000, 20000, 30000, 40000)}
+\* 17500 and 35000 um are not whole numbers of twips AND sit where a truncating conversion loses a twip on every rewrite
+MarPool == {Mar(25400, 25400, 25400, 25400), Mar(10000, 17500, 30000, 35000)}
            \cup (IF Scale >= 3 THEN {Mar(0, 0, 0, 0)} ELSE {})
 BadMarPool == {Mar(-1000, 20000, 30000, 40000), Mar(10000, 20000, 30000, -1)}
               \cup (IF Scale >= 3 THEN {Mar(10000, -20000, 30000, 40000), Mar(10000, 20000, -30000, 40000)} ELSE {})
 Hf(a, b) == [hd |-> a, fd |-> b]
-HfPool == {Hf(12700, 12700), Hf(5000, 15000)}
+HfPool == {Hf(12700, 12700), Hf(17500, 15000)}
 BadHfPool == {Hf(-1000, 15000), Hf(5000, -1)}
 GutPool == {0, 5000}
 BadGutPool == {-1000}
@@ -87,9 +88,9 @@ Full(z, o, m, d, g, r) ==
    mt |-> m.mt, mr |-> m.mr, mb |-> m.mb, ml |-> m.ml, hd |-> d.hd, fd |-> d.fd, gut |-> g,
    gt |-> IF r.gt = "none" THEN "" ELSE r.gt, gp |-> r.gp, gc |-> r.gc]
 M0 == Mar(25400, 25400, 25400, 25400)
-M1 == Mar(10000, 20000, 30000, 40000)
+M1 == Mar(10000, 17500, 30000, 35000)
 D0 == Hf(12700, 12700)
-D1 == Hf(5000, 15000)
+D1 == Hf(17500, 15000)
 G1 == Gr("snapToChars", 400, 50)
 A4z == Sz("A4", 0, 0)
 
